@@ -139,6 +139,10 @@ class BitString(Type):
         return clean_value == clean_default
 
     def encode(self, data, encoded, values=None):
+        if self.has_named_bits:
+            # Trailing zero bits are removed (X.690 11.2.2).
+            data = clean_bit_string_value(data, True)
+
         number_of_bytes, number_of_rest_bits = divmod(data[1], 8)
         data = bytearray(data[0])
 
